@@ -259,7 +259,7 @@ def canon_graph(nodes, D=(), B=(), U=(), C=()):
 # ----------------------------------------------------------------------------- labels
 class Labels:
     """bijection int index <-> python label for one label family"""
-    FAMILIES = ("int", "bigint", "str", "tuple", "frozenset", "falsy", "nested", "lookalike")
+    FAMILIES = ("int", "bigint", "str", "tuple", "frozenset", "falsy", "nested", "lookalike", "npint")
 
     def __init__(self, family="int", salt=0):
         self.family = family
@@ -294,6 +294,11 @@ class Labels:
             # keys built from str(label) or repr(label) confuse them, sorted() over them is not defined
             lab = {0: 1, 1: "".join(["1"]), 2: (0, 1), 3: "".join(["(0, ", "1)"]), 4: frozenset([1]),
                    5: "".join(["frozenset(", "{1})"]), 6: "".join([" "]), 7: -1, 8: "".join(["-", "1"])}.get(i, (i, str(i)))
+        elif f == "npint":
+            # numpy integer scalars (node labels read from an array): == between them yields numpy.bool_, not bool,
+            # and they hash / compare equal to the plain int of the same value
+            import numpy as _np
+            lab = _np.int64(1000 + 17 * i)
         elif f == "auglike":
             # (not in FAMILIES: used by C20 only) ordinary nodes named like the library's generated
             # intervention / domain nodes ('F', k) / ('S', k)
@@ -309,6 +314,8 @@ class Labels:
     def fresh(self, i):
         """an equal-but-not-identical copy of the label (defeats `is` comparisons)"""
         lab = self(i)
+        if type(lab).__module__ == "numpy":
+            return type(lab)(int(lab))
         if isinstance(lab, int):
             return int(str(lab))
         if isinstance(lab, str):
@@ -598,15 +605,81 @@ def snapshot(G):
     return out
 
 
+class TimeoutResult(dict):
+    """what pmap returns for an item on which the implementation did not come back: every lookup answers
+    "err:does-not-terminate"; the item is also recorded (see timeouts()) and reported by ./check"""
+
+    def __missing__(self, k):
+        return "err:does-not-terminate"
+
+    def get(self, k, d=None):
+        return "err:does-not-terminate"
+
+    def __contains__(self, k):
+        return k in ("ans", "err")
+
+
+ITEM_CPU_S = float(os.environ.get("VERIF_ITEM_CPU_S", "90"))
+_TIMEOUT_LOG = os.path.join(VERIF, ".cache", "timeouts-%d.jsonl" % os.getpid())
+
+
+class _Limited:
+    """picklable wrapper: fn(item) under a CPU-time limit; a timeout is recorded with the item"""
+
+    def __init__(self, fn, log):
+        self.fn, self.log = fn, log
+
+    def __call__(self, item):
+        try:
+            # once a few calls have failed to return the rest of the batch is not run: the run ends with that finding
+            if os.path.exists(self.log) and os.path.getsize(self.log) > 0 and sum(1 for _ in open(self.log)) >= 3:
+                return TimeoutResult()
+        except OSError:
+            pass
+        try:
+            with time_limit(ITEM_CPU_S):
+                return self.fn(item)
+        except CallTimeout:
+            try:
+                os.makedirs(os.path.dirname(self.log), exist_ok=True)
+                with open(self.log, "a") as f:
+                    f.write(json.dumps({"item": item, "cpu_s": ITEM_CPU_S}, default=str) + "\n")
+            except Exception:
+                pass
+            return TimeoutResult()
+
+
+def timeouts():
+    """items on which an implementation call exceeded the CPU-time limit during this run"""
+    if not os.path.exists(_TIMEOUT_LOG):
+        return []
+    out = []
+    for l in open(_TIMEOUT_LOG):
+        try:
+            out.append(json.loads(l))
+        except Exception:
+            pass
+    return out
+
+
+def clear_timeouts():
+    try:
+        os.unlink(_TIMEOUT_LOG)
+    except OSError:
+        pass
+
+
 def pmap(fn, items, jobs=None, chunksize=64):
-    """parallel map preserving order (fork pool)"""
+    """parallel map preserving order (fork pool); every item runs under a CPU-time limit (ITEM_CPU_S): an
+    implementation that does not return is recorded and reported, never waited for"""
     items = list(items)
     jobs = jobs or min(16, os.cpu_count() or 1)
+    lim = _Limited(fn, _TIMEOUT_LOG)
     if jobs <= 1 or len(items) < 200:
-        return [fn(x) for x in items]
+        return [lim(x) for x in items]
     import multiprocessing as mp
     with mp.get_context("fork").Pool(jobs) as pool:
-        return pool.map(fn, items, chunksize=chunksize)
+        return pool.map(lim, items, chunksize=chunksize)
 
 
 def load_corpus(pid):
@@ -822,6 +895,18 @@ def detour(G, call, salt, layers=("directed", "bidirected", "circle", "undirecte
                     removed.append((L, gr, u, v, data))
                 except Exception:
                     pass
+        elif mixed and hasattr(G, "clear_edges"):
+            # the whole layer is emptied with clear_edges(layer) - a mutator that is easy to forget when per-object
+            # state is invalidated - and refilled at the end
+            es = [(u, v, dict(d)) for u, v, d in gr.edges(data=True)]
+            try:
+                G.clear_edges(L)
+                for u, v, d in es:
+                    if not any(s[0] == L and {s[2], s[3]} == {u, v} for s in surplus):
+                        removed.append((L, gr, u, v, d))
+                surplus = [s for s in surplus if s[0] != L]
+            except Exception:
+                pass
         try:
             call()
         except CallTimeout:
@@ -863,8 +948,9 @@ class CallTimeout(BaseException):
 
 
 class time_limit:
-    """`with time_limit(20): f()` raises CallTimeout in the main thread of the process after 20 s of CPU time of this process (ITIMER_PROF: a loaded machine cannot trigger it).
-    A function under test that does not return is reported, never waited for."""
+    """`with time_limit(20): f()` raises CallTimeout in the main thread of the process after 20 s of CPU time of
+    this process (ITIMER_PROF: a loaded machine cannot trigger it).  A function under test that does not return is
+    reported, never waited for.  Nests: an inner limit re-arms what was left of the outer one on exit."""
 
     def __init__(self, seconds):
         self.s = seconds
@@ -874,14 +960,18 @@ class time_limit:
 
         def _h(signum, frame):
             raise CallTimeout()
+        self.left = signal.getitimer(signal.ITIMER_PROF)[0]
+        self.t0 = time.process_time()
         self.old = signal.signal(signal.SIGPROF, _h)
-        signal.setitimer(signal.ITIMER_PROF, self.s)
+        signal.setitimer(signal.ITIMER_PROF, min(self.s, self.left) if self.left > 0 else self.s)
         return self
 
     def __exit__(self, *a):
         import signal
         signal.setitimer(signal.ITIMER_PROF, 0)
         signal.signal(signal.SIGPROF, self.old)
+        if self.left > 0:
+            signal.setitimer(signal.ITIMER_PROF, max(0.05, self.left - (time.process_time() - self.t0)))
         return False
 
 
@@ -914,7 +1004,20 @@ def _heal(G, content):
             gr.add_edge(u, v, **d)
 
 
-def warmup(G, call, layers=("directed", "bidirected", "circle", "undirected"), salt=None):
+def mark_unrelated_state(G, salt=0):
+    """public bookkeeping that no path / separation query may depend on: on graph classes that have it, a triple
+    of nodes is marked as unfaithful (ConservativeMixin.mark_unfaithful_triple); the mark stays."""
+    try:
+        ns = list(G.nodes)
+        if hasattr(G, "mark_unfaithful_triple") and len(ns) >= 3:
+            k = salt % len(ns)
+            G.mark_unfaithful_triple(ns[k], ns[(k + 1) % len(ns)], ns[(k + 2) % len(ns)])
+            G.mark_unfaithful_triple(ns[(k + 2) % len(ns)], ns[k], ns[(k + 1) % len(ns)])
+    except Exception:
+        pass
+
+
+def warmup(G, call, layers=("directed", "bidirected", "circle", "undirected"), salt=None, marks=False):
     """query - edit the same object in place - query again.  Two phases, `call()` inside each (its result
     and exceptions are ignored): (1) a count-preserving re-pointing of one edge (see _warmup_raw mode 0:
     memo tables validated by node / edge counts stay 'valid' but are stale); (2) a random detour that adds
@@ -927,6 +1030,8 @@ def warmup(G, call, layers=("directed", "bidirected", "circle", "undirected"), s
     content = _content(G)
     if salt is None:
         salt = zlib.crc32(repr(before).encode())
+    if marks:
+        mark_unrelated_state(G, salt)
     ok = True
 
     def phases():
